@@ -30,11 +30,12 @@ def parseFn : Nat → List String → Option (Fn Rat × List String)
     | "box" :: lo :: hi :: r => do some (.box (← optList lo) (← optList hi), r)
     | "const" :: r => some (.const, r)
     | "izero" :: r => some (.izero, r)
-    | "linf" :: r => some (.linf, r)
-    | "cclinf" :: r => some (.cclinf, r)
-    | "simplex" :: d :: r => do some (.simplex (← parseRat d), r)
-    | "sumc" :: s :: r => do some (.sumc (← parseRat s), r)
+    | "linf" :: cw :: r => do some (.linf (← parseRat cw), r)
+    | "cclinf" :: cw :: r => do some (.cclinf (← parseRat cw), r)
+    | "simplex" :: a :: d :: r => do some (.simplex (a == "1") (← parseRat d), r)
+    | "sumc" :: a :: s :: r => do some (.sumc (a == "1") (← parseRat s), r)
     | "huber" :: g :: r => do some (.huber (← parseRat g), r)
+    | "huberg" :: d :: g :: r => do some (.huberG (← d.toNat?) (← parseRat g), r)
     | "klcc" :: lam :: g :: r => do some (.klcc (← parseRat lam) (← optList g), r)
     | "trans" :: y :: r => do
         let y ← parseRatList y
@@ -86,17 +87,24 @@ def doProx (l : Line) : Option String := do
     let E : Env Rat := { sqrt := ratSqrt, eps := eps }
     some s!"ok p={showRatList (f.prox E w sig x)}"
 
-/-- `simplex r=<diameter> x=<point>` answers the threshold, the projection and the exact
-feasibility residual `sum(p) - r` (checked to be 0 by the harness on every input: the
-hypothesis of `C07.simplex_kkt_sufficient`). -/
+/-- `simplex r=<diameter> x=<point> [w=<array weights>]` answers the threshold, the projection
+and the exact feasibility residual `sum(p) - r` (the hypothesis of the KKT theorems). -/
 def doSimplex (l : Line) : Option String := do
   let r ← l.rat? "r"
   let x ← l.rats? "x"
-  match simplexTau r x with
-  | none => some "err:empty"
-  | some tau =>
-    let p := x.map fun xi => maxK (xi - tau) 0
-    some s!"ok tau={showRat tau} resid={showRat (sumK p - r)} p={showRatList p}"
+  match l.rats? "w" with
+  | some w =>
+    match simplexTauW r w x with
+    | none => some "err:empty"
+    | some tau =>
+      let p := List.zipWith (fun wi xi => maxK (xi - tau / wi) 0) w x
+      some s!"ok tau={showRat tau} resid={showRat (sumK p - r)} p={showRatList p}"
+  | none =>
+    match simplexTau r x with
+    | none => some "err:empty"
+    | some tau =>
+      let p := x.map fun xi => maxK (xi - tau) 0
+      some s!"ok tau={showRat tau} resid={showRat (sumK p - r)} p={showRatList p}"
 
 def handle (l : Line) : Option String :=
   match l.op with
